@@ -210,6 +210,10 @@ def run_case(ctx, case):
     dreq = case.get("dreq") or {}
     rig = get_rig(sig, req, dreq, case.get("flavour", "func"))
     args, kwargs = sigmodel.make_call(sig, shape)
+    if case.get("none_args"):
+        # None passed EXPLICITLY (it is a value like any other, also where the parameter has another default)
+        args = tuple(None if i % 2 == 0 else a for i, a in enumerate(args))
+        kwargs = {k: (None if j % 2 == 0 else v) for j, (k, v) in enumerate(kwargs.items())}
     # what the body receives: call the bare function with the very same objects
     rig.log = []
     try:
@@ -238,6 +242,16 @@ def run_case(ctx, case):
     for role in req:
         if any(n in (dreq.get(role) or []) for n in stage_missing(role)):
             ctx.count("skipped:unsupplied-name-with-callback-default")
+            # the call is made all the same (not judged): it is part of the HISTORY of this contract - later calls that
+            # do supply the name must be served with the value of THEIR call
+            rig.log, rig.inner_log, rig.mode, rig.err_obj = [], [], "A", None
+            try:
+                rig.call(rig.func, args, kwargs)
+            except core.HarnessError:
+                raise
+            except BaseException:  # noqa
+                pass
+            rig.log = []
             return feats
 
     expect_roles = []  # roles whose callback must have been called, in order
@@ -421,7 +435,7 @@ KNOWN = {
 def replay(ctx, case):
     c = {k: case[k] for k in ("sig", "shape", "req", "mode")}
     c["dreq"] = case.get("dreq")
-    for k in ("flavour", "reenter", "self_kw"):
+    for k in ("flavour", "reenter", "self_kw", "none_args"):
         if k in case:
             c[k] = case[k]
     run_case(ctx, c)
@@ -446,6 +460,8 @@ def run(ctx, tier, seed, shard, nshards):
                     for dreq in (dreq_variants(req) if vi == 0 else dreq_variants(req)[:2]):
                         for mode in modes:
                             do_case(ctx, {"sig": sig, "shape": shape, "req": req, "dreq": dreq, "mode": mode})
+                            if vi == 0 and dreq is None:
+                                do_case(ctx, {"sig": sig, "shape": shape, "req": req, "dreq": dreq, "mode": mode, "none_args": True})
                 # the same signature as `async def` and as a method called on an instance (conditions may ask for self)
                 for flavour in ("async", "method", "inherited"):
                     req = req_variants(sig, flavour)[0]
@@ -474,6 +490,21 @@ def run(ctx, tier, seed, shard, nshards):
     else:
         n_examples = 2500
         bounds = dict(max_po=2, max_pk=3, max_ko=2)
+        # histories on ONE contract: a few signatures with **kwargs, every shape in turn through the same decorated
+        # function, callbacks asking for names that some calls supply and others do not (with and without own defaults)
+        n_hist = 0
+        for sig in sigmodel.enumerate_sigs():
+            if not sig["vk"] or not sigmodel.sig_params(sig):
+                continue
+            n_hist += 1
+            if n_hist > 24:
+                break
+            variants = req_variants(sig)
+            for flavour in ("func", "inherited"):
+                req = req_variants(sig, flavour)[1]
+                for dreq in dreq_variants(req)[1:]:
+                    for shape in sigmodel.enumerate_shapes(sig):
+                        do_case(ctx, {"sig": sig, "shape": shape, "req": req, "dreq": dreq, "mode": "A", "flavour": flavour})
 
     @st.composite
     def st_case(draw):
@@ -497,7 +528,7 @@ def run(ctx, tier, seed, shard, nshards):
             dreq = {r: [n for n in v if n not in ("result", "OLD") and draw(st.booleans())] for r, v in req.items()}
         return {"sig": sig, "shape": shape, "req": req, "dreq": dreq, "mode": draw(st.sampled_from(modes)),
                 "flavour": flavour, "reenter": draw(st.integers(0, 3)) == 0,
-                "self_kw": flavour in METHODISH and draw(st.booleans())}
+                "self_kw": flavour in METHODISH and draw(st.booleans()), "none_args": draw(st.integers(0, 3)) == 0}
 
     @given(st_case())
     def test(case):
